@@ -133,3 +133,13 @@ Proof. exact resize_clone_panic_nodup. Qed.
 
 Print Assumptions C16_resize_clone_panic.
 Print Assumptions C16_resize_clone_panic_no_double_drop.
+
+(* extend / extend_from_slice when the iterator or Clone panics after j items: exactly those j
+   items were pushed; the panic state is a state of the normal run *)
+Theorem C16_extend_panic : forall e v c hint xs j v',
+  repr e v c -> extend_iter e v hint (firstn j xs) = Ret v' ->
+  repr e v' (c ++ firstn j xs) /\
+  extend_iter e v hint xs =
+    fold_left (fun acc x => match acc with Panic k => Panic k | Ret w => push e w x end) (skipn j xs) (Ret v').
+Proof. exact extend_panic_spec. Qed.
+Print Assumptions C16_extend_panic.
